@@ -69,6 +69,10 @@ def _path(clf, X, y=None, alpha_multiplier=1.05, min_features=2, keep_threshold=
         warnings.warn(f"The min_features param is greater or equal to the number of features. This implies that "
                       f"no path will be performed. The method is equivalent to `fit`.")
 
+    if clf.alpha <= 0:
+        raise ValueError(f"The path multiplies alpha by alpha_multiplier at each step, so it needs a strictly "
+                         f"positive starting alpha. Got alpha={clf.alpha}.")
+
     # Start by fitting the model using all features and without regularisation
     alpha = clf.alpha
     clf.set_params(alpha=0)
